@@ -28,7 +28,7 @@ ANCHORS = [
     ("tangelo/toolboxes/ansatz_generator/uccsd.py", "build_circuit", "UCCSD Pauli-word ordering"),
     ("tangelo/toolboxes/ansatz_generator/upccgsd.py", "build_circuit", "UpCCGSD Pauli-word ordering"),
 ]
-REQUIRED = {"operator_matrix": 9, "penalty_matrix": 64, "commutes_with_hamiltonian": 25, "encoded_on_determinant": 796, "ansatz_conserves_number_and_spin": 20}
+REQUIRED = {"pool_generator_commutes_with_N_Sz": 70, "operator_matrix": 9, "penalty_matrix": 64, "commutes_with_hamiltonian": 25, "encoded_on_determinant": 796, "ansatz_conserves_number_and_spin": 20}
 BUDGET = {"quick": 300, "thorough": 3000}
 TOL = 1e-9
 
@@ -45,6 +45,8 @@ def cases(tier, seed):
             for utd in (False, True):
                 out.append({"sub": "dets", "n_orbs": n_orbs, "mapping": m, "utd": utd})
     out += [{"sub": "commute", "i": i} for i in range(24 if tier == "quick" else 300)]
+    for mi, nch in ([(0, 1), (1, 2), (2, 2), (3, 6)] if tier == "quick" else [(0, 1), (1, 2), (2, 2), (3, 6), (4, 6), (5, 6), (6, 6)]):
+        out += [{"sub": "pool", "mol": mi, "chunk": c, "nchunks": nch} for c in range(nch)]
     mols = 3 if tier == "quick" else 7
     for mi in range(mols):
         for kind in sorted(ansatzlib.PARTICLE_CONSERVING) + ["pUCCD", "UpCCGSD4"]:
@@ -238,5 +240,53 @@ def run_ansatz(case, ctx):
     ctx.tab("ansatz_x_molecule", f"{kind}|{label}")
 
 
+def run_pool(case, ctx):
+    """ADAPT's fermionic pool, exhaustively: every generator of the pool the solver builds for a molecule (a) commutes with N and Sz as a
+    Fock-space matrix and (b) applied alone through ADAPTAnsatz at a random angle to the reference determinant keeps the state in the
+    reference (N, Sz) sector.  Odd-electron references matter: a wrongly signed Pauli word only moves weight between N-conserving
+    determinants when the reference is closed-shell with two electrons."""
+    import tangelo.toolboxes.ansatz_generator as ag
+    from tangelo.algorithms.variational import ADAPTSolver
+    mol = get_mol(case["mol"])
+    label = mol_list("x")[case["mol"]]["label"]
+    M = mol.n_active_sos
+    rng, pr, s = case_rng(ctx.seed, "C12", "pool", case["mol"], case["chunk"])
+    with warnings.catch_warnings():
+        warnings.simplefilter("ignore")
+        sol = ADAPTSolver({"molecule": mol, "qubit_mapping": "JW", "up_then_down": False})
+        sol.build()
+    npool = len(sol.pool_operators)
+    mine = [k for k in range(npool) if k % case["nchunks"] == case["chunk"]]
+    N, Sz, S2 = fock.number_matrices(M, up_then_down=False)
+    ne, spin = mol.n_active_electrons, mol.active_spin
+    for k in mine:
+        G = fop_matrix(sol.fermionic_operators[k], M)
+        dn = float(np.abs(G @ N - N @ G).max())
+        ds = float(np.abs(G @ Sz - Sz @ G).max())
+        ctx.check("pool_generator_commutes_with_N_Sz", dn < 1e-12 and ds < 1e-12,
+                  f"fermionic pool operator {k} of {npool} ({label}) does not commute with N / Sz (|[G,N]|={dn:.1e}, |[G,Sz]|={ds:.1e})",
+                  lambda: {"molecule": label, "pool_index": k, "operator": str(sol.fermionic_operators[k])[:400], "comm_N": dn, "comm_Sz": ds})
+        with warnings.catch_warnings():
+            warnings.simplefilter("ignore")
+            ans = ag.ADAPTAnsatz(M, ne, spin, {"operators": [], "ferm_operators": [], "mapping": "JW", "up_then_down": False})
+            ans.build_circuit()
+            ans.add_operator(sol.pool_operators[k], sol.fermionic_operators[k])
+            th = [pr.uniform(-2.5, 2.5)]
+            if pr.random() < 0.5:
+                ans.build_circuit(th)
+            else:
+                ans.set_var_params(th)
+                ans.update_var_params(th)
+        psi = refsim.run(gen.from_circuit(ans.circuit), M)
+        dN = float(np.linalg.norm(N @ psi - ne * psi))
+        dS = float(np.linalg.norm(Sz @ psi - (spin / 2) * psi))
+        ctx.check("ansatz_conserves_number_and_spin", dN < 1e-8 and dS < 1e-8,
+                  f"ADAPT with pool operator {k} alone ({label}) leaves the reference sector (|(N-N0)psi|={dN:.2e}, |(Sz-Sz0)psi|={dS:.2e})",
+                  lambda: {"molecule": label, "pool_index": k, "n_electrons": ne, "spin": spin, "theta": th, "dN": dN, "dSz": dS})
+        ctx.nontrivial(("pool", label, k))
+    ctx.tab("pool_operators", label, len(mine))
+    ctx.sample({"sub": "pool", "molecule": label, "pool_size": npool, "operators_checked": len(mine)})
+
+
 def run_case(case, ctx):
-    {"matrix": run_matrix, "dets": run_dets, "commute": run_commute, "ansatz": run_ansatz}[case["sub"]](case, ctx)
+    {"matrix": run_matrix, "dets": run_dets, "commute": run_commute, "ansatz": run_ansatz, "pool": run_pool}[case["sub"]](case, ctx)
